@@ -137,8 +137,9 @@ pub fn check_arith(c: &ArithCase) -> Verdict {
                 if *v as u128 != remaining {
                     return fail("lifetime total<=63", format!("lifetime {} != leaves - counter = {} for heights {:?} counter {}", v, remaining, c.heights, c.counter));
                 }
-            } else if *v < 1 || (*v as u128) > remaining {
-                return fail("lifetime total>=64", format!("lifetime {} outside 1..={} for heights {:?} counter {}", v, remaining, c.heights, c.counter));
+            } else if (*v as u128) != remaining.min(u64::MAX as u128) {
+                // more leaves left than a u64 can express: the closest representable value
+                return fail("lifetime total>=64", format!("lifetime {} != min(leaves - counter, u64::MAX) = {} for heights {:?} counter {}", v, remaining.min(u64::MAX as u128), c.heights, c.counter));
             }
         }
         o => return fail("lifetime-err", format!("lifetime query failed ({}) for a live key heights {:?} counter {}", o.kind(), c.heights, c.counter)),
@@ -198,6 +199,12 @@ fn check_e2e(c: &E2eCase) -> Verdict {
     let want_succ = if c.counter >= last { hss::wiped_blob(n) } else { hss::private_key_blob(&c.levels, c.counter + 1, &seed) };
     if calls.len() != 1 || calls[0] != want_succ {
         return fail("e2e-successor", format!("callback got {:?}, expected {}", calls.iter().map(|c| gen::hex(c)).collect::<Vec<_>>(), gen::hex(&want_succ)));
+    }
+    // the lifetime query of the real key object
+    let remaining = hss::total_leaves(&c.levels).saturating_sub(c.counter as u128).min(u64::MAX as u128);
+    match libapi::lifetime(c.hash, &blob) {
+        Out::Ok(v) if v as u128 == remaining => {}
+        o => return fail(format!("e2e-lifetime total{}", if total >= 64 { ">=64" } else { "<=63" }), format!("SigningKey::get_lifetime = {:?}, expected min(leaves - counter, u64::MAX) = {} for {} counter {}", o, remaining, levels_str(&c.levels), c.counter)),
     }
     pass(format!("{}|total{}", gen::shape_class(&c.levels), if total >= 64 { ">=64" } else { "<=63" }), true)
 }
